@@ -90,7 +90,7 @@ Section TokLemmas.
     - rewrite tok_enc.
       destruct (tokv H cs h look fuel (n :: st) (VRef t)) as [[s e]|er]; cbn [bind fst snd]; [|reflexivity].
       destruct (tok_args (tokv H cs h look fuel (n :: st)) ty (sg_args sg)) as [[ss ee]|er]; cbn [bind fst snd]; [|reflexivity].
-      unfold enc_sig. cbn [ss_task ss_tid ss_args app]. reflexivity.
+      unfold enc_sig, tmark. destruct (index_of t (n :: st)); cbn [ss_task ss_tid ss_args app]; reflexivity.
     - cbn [bind fst snd].
       destruct (tok_args (tokv H cs h look fuel (n :: st)) ty (sg_args sg)) as [[ss ee]|er]; cbn [bind fst snd]; [|reflexivity].
       unfold enc_sig. cbn [ss_task ss_tid ss_args app]. reflexivity.
